@@ -49,6 +49,21 @@ def eval_call(I: Interp, n: ast.Call, env: Env):
         return I.V.hasattr_(I, v, a, n)
     if isinstance(n.func, ast.Name) and n.func.id in ("cast",) and not env.has("cast"):
         return I.eval(n.args[1], env)
+    if (isinstance(n.func, ast.Attribute) and n.func.attr == "add" and isinstance(n.func.value, ast.Name) and len(n.args) == 1
+            and env.has(n.func.value.id) and isinstance(env.lookup(n.func.value.id), (set, SSet))):
+        base = env.lookup(n.func.value.id)
+        arg = I.eval(n.args[0], env)
+        if is_sym(arg) or isinstance(base, SSet):
+            # a set that receives a symbolic element becomes a membership predicate (rebinding the local; PS3)
+            ety = base.ety if isinstance(base, SSet) else ty_of(arg)
+            x = z3.Const(I.ctx.fresh_name("sx"), sort_of(ety))
+            at = pack(I.ctx, arg, ety)
+            if isinstance(base, SSet):
+                body = z3.Or(z3.Select(base.pred, x), x == at)
+            else:
+                body = z3.Or([x == pack(I.ctx, e, ety) for e in base] + [x == at])
+            env.set(n.func.value.id, SSet(z3.Lambda([x], body), ety))
+            return None
     f = I.eval(n.func, env)
     args = []
     for a in n.args:
@@ -86,6 +101,8 @@ def quantifier(I: Interp, which, gen: ast.GeneratorExp, env: Env):
         return _MISSING
     if not is_sym(lo) and not is_sym(hi) and not I.V.in_contract_expr:
         return _MISSING
+    if not is_sym(lo) and not is_sym(hi) and hi <= lo:
+        return which == "all"
     j = z3.Int(I.ctx.fresh_name(g.target.id))
     e2 = Env(env)
     e2.set(g.target.id, SV(j, INT))
@@ -171,6 +188,7 @@ def run_function(I: Interp, qual, fn, module, cls, bound: dict, closure_env=None
     if I.depth > 40:
         raise Unsupported(f"inline depth exceeded at {qual}")
     fr = Frame(qual, fn, module, cls)
+    fr.bound = bound
     env = Env(closure_env)
     env.vars.update(bound)
     I.frames.append(fr)
@@ -233,6 +251,8 @@ def call_value(I: Interp, f, args, kwargs, node=None):
         return V.havoc_call(I, f.what, args, kwargs, node)
     if callable(f):
         # spec function or python builtin registered in BUILTINS
+        if any(isinstance(a, Opaque) for a in args) and f in _OPAQUE_TOLERANT:
+            return Opaque("builtin")
         return f(I, *args, **kwargs)
     raise Unsupported(f"call of {f!r}")
 
@@ -378,6 +398,25 @@ def _ite(I, c, a, b):
     return unpack(I.ctx, z3.simplify(z3.If(c, pack(I.ctx, a, ta), pack(I.ctx, b, tb))), ta)
 
 
+def b_any(I, v):
+    if isinstance(v, Opaque):
+        return Opaque("any")
+    r = False
+    for x in I.concrete_iter(v):
+        if I.branch(x):
+            return True
+    return r
+
+
+def b_all(I, v):
+    if isinstance(v, Opaque):
+        return Opaque("all")
+    for x in I.concrete_iter(v):
+        if not I.branch(x):
+            return False
+    return True
+
+
 def b_range(I, *a):
     if any(is_sym(x) for x in a):
         raise Unsupported("range with symbolic bound needs a loop contract")
@@ -385,6 +424,8 @@ def b_range(I, *a):
 
 
 def b_bool(I, v=False):
+    if isinstance(v, Opaque):
+        return SV(I.truth(v), BOOL)
     t = I.truth(v)
     return t if isinstance(t, bool) else SV(t, BOOL)
 
@@ -461,13 +502,16 @@ BUILTINS.update({
     "len": b_len, "zip": b_zip, "enumerate": b_enumerate, "reversed": b_reversed, "iter": b_iter, "next": b_next,
     "list": b_list, "tuple": b_tuple, "set": b_set, "dict": b_dict, "max": b_max, "min": b_min, "range": b_range,
     "bool": b_bool, "int": b_int, "str": b_str, "repr": b_repr, "sum": b_sum, "sorted": b_sorted,
-    "getattr": b_getattr, "print": b_print, "type": b_type, "id": b_id, "callable": b_callable,
+    "getattr": b_getattr, "print": b_print, "any": b_any, "all": b_all, "type": b_type, "id": b_id, "callable": b_callable,
     "True": True, "False": False, "None": None, "Ellipsis": Ellipsis,
 })
 for _e in ("Exception", "AssertionError", "TypeError", "ValueError", "KeyError", "IndexError", "StopIteration",
            "AttributeError", "ImportError", "ModuleNotFoundError", "NotImplementedError", "RuntimeError",
            "SyntaxError", "OSError", "FileNotFoundError", "BaseException", "LookupError", "NotImplemented"):
     BUILTINS[_e] = ClassRef(_e, _e)
+
+
+_OPAQUE_TOLERANT = {b_sum, b_sorted, b_str, b_repr, b_int, b_list, b_tuple, b_set, b_dict, b_max, b_min, b_bool}
 
 
 def builtin_method(I: Interp, base, name, args, kwargs, node=None):
